@@ -21,6 +21,7 @@ META["explanation"] += " The dynamic limit / count input of Head, Tail and Skip 
 META["explanation"] += ' The waker-list inventory (R02.3 wake all, R02.4 full drain after every version write, R02.5 only push / drain / take) is evaluated here: a registered waker stays registered until it is woken.'
 META["explanation"] += ' Also evaluated here: the ready-buffer rules (R13.1, R13.3, R13.5-R13.8) - returning Pending whenever the source is Pending is right only because nothing is parked in the ready buffer across such a return (batched containers cannot buffer). The typestate runs on combinator-desugared bodies and has the locally-owned-input clause (see C02).'
 META["explanation"] += " Poll functions that build Pending without polling anything (other than eyeball's audited poll leaf) are included: their Pending is reported as not caused by an input (a hand-rolled waker list whose wake discipline no rule verifies)."
+META["explanation"] += ' Shared with C08: R08.2 / R08.4 (one long-lived Sender that is never cloned, moved out or kept from being dropped - mem::forget / ptr::read around the vector leave the channel open and parked streams are never woken). Termination memories (see C09 R09.18) are understood by the typestate.'
 
 
 def run(ctx):
@@ -44,6 +45,12 @@ def run(ctx):
     if UT in have:
         from . import groups
         groups.util_buffers(ctx)
+    # "the source being dropped wakes": the channel closes when the vector goes - one long-lived Sender that is never cloned, moved out
+    # or kept from being dropped (mem::forget / ManuallyDrop around the vector)
+    if IM in have:
+        from . import c08
+        c08.r08_2(ctx)
+        c08.r08_4(ctx)
     # the dynamic limit / count of Head, Tail and Skip is an eyeball Subscriber: its poll paths are inputs of the adapters
     if EY in have:
         from . import groups, leaf
